@@ -85,7 +85,7 @@ def num_model_arm(ctx, reason):
 
 
 def gen(ctx, rng):
-    case = pc.gen_panel_case(rng, max_mn=ctx.scale(3, 5))
+    case = pc.gen_panel_case(rng, max_mn=ctx.scale(4, 5))
     case['pad'] = rng.choice([0, 0, 3, 7])
     case['row0'] = case['col0'] = rng.choice([0, case['pad']]) if case['pad'] else 0
     case['N'] = [rng.uniform(-1e3, 1e3), rng.choice([0., rng.uniform(-1e3, 1e3)]), rng.choice([0., rng.uniform(-1e3, 1e3)])]
